@@ -3,9 +3,13 @@ package scheduler
 import (
 	"fmt"
 
+	cmttypes "github.com/cometbft/cometbft/types"
+
 	"github.com/oasisprotocol/oasis-core/go/common/cbor"
+	"github.com/oasisprotocol/oasis-core/go/common/quantity"
 	"github.com/oasisprotocol/oasis-core/go/consensus/cometbft/api"
 	schedulerState "github.com/oasisprotocol/oasis-core/go/consensus/cometbft/apps/scheduler/state"
+	stakingState "github.com/oasisprotocol/oasis-core/go/consensus/cometbft/apps/staking/state"
 	governance "github.com/oasisprotocol/oasis-core/go/governance/api"
 	scheduler "github.com/oasisprotocol/oasis-core/go/scheduler/api"
 )
@@ -40,6 +44,21 @@ func (app *Application) changeParameters(ctx *api.Context, msg any, apply bool) 
 	}
 	if err = params.SanityCheck(); err != nil {
 		return nil, fmt.Errorf("cometbft/scheduler: failed to validate consensus parameters: %w", err)
+	}
+	// The total supply must remain convertible to voting power under the new distribution (as it
+	// is checked for the genesis document), otherwise the next validator election could fail.
+	if changes.VotingPowerDistribution != nil && !params.DebugBypassStake {
+		var totalSupply *quantity.Quantity
+		if totalSupply, err = stakingState.NewImmutableState(ctx.State()).TotalSupply(ctx); err != nil {
+			return nil, fmt.Errorf("cometbft/scheduler: failed to load total supply: %w", err)
+		}
+		var supplyPower int64
+		if supplyPower, err = scheduler.VotingPowerFromStake(totalSupply, params.VotingPowerDistribution); err != nil {
+			return nil, fmt.Errorf("cometbft/scheduler: total supply would break voting power computation: %w", err)
+		}
+		if supplyPower > cmttypes.MaxTotalVotingPower {
+			return nil, fmt.Errorf("cometbft/scheduler: total supply power %d exceeds CometBFT voting power limit %d", supplyPower, cmttypes.MaxTotalVotingPower)
+		}
 	}
 
 	// Apply changes.
